@@ -7,7 +7,10 @@
     translate/c08_sites.py:
     - [realloc_on_add]: add_ent/add_ents allocate again through __setitem__ (get_id(own ID), then store);
     - [release_on_remove]: remove_ent releases the ID although the entity keeps the key;
-    - [release_in_del]: the destructor releases the ID.
+    - [release_in_del]: the destructor releases the ID;
+    - [copy_registers] (round 3): the keyvalues a copy takes over from its source enter the new entity through
+      __setitem__ (so the 'nodeid' value is only a *desired* ID), as opposed to being written into the key
+      dictionary directly (the copy then holds the very ID of its source without owning it).
     Executable definitions only; proofs are in SM/IdNodeProofs.v. *)
 From stdpp Require Import gmap sets.
 From Coq Require Import ZArith.
@@ -29,6 +32,7 @@ Inductive nev :=
 
 Section node.
   Variables realloc_on_add release_on_remove release_in_del : bool.
+  Variable copy_registers : bool.
 
   Definition nrelease (old : option Z) (m : idman) : idman :=
     match old with Some n => discard n m | None => m end.
@@ -55,11 +59,18 @@ Section node.
     let '(key', m2) := nadd key m1 in
     {| nman := m2; nents := nents w ++ [ {| nid := key'; nalive := true; ninmap := true |} ] |}.
 
+  (** A copy whose keyvalues bypass __setitem__: the key value is taken over as it is, the manager is not asked. *)
+  Definition ncopy_raw (key : option Z) (w : nworld) : nworld :=
+    let '(key', m) := nadd key (nman w) in
+    {| nman := m; nents := nents w ++ [ {| nid := key'; nalive := true; ninmap := true |} ] |}.
+
   Definition nstep (w : nworld) (e : nev) : nworld :=
     match e with
     | NCreate d => ncreate d w
     | NCopy k => match nents w !! k with
-                 | Some o => if nalive o then ncreate (nid o) w else w
+                 | Some o => if nalive o then
+                               if copy_registers then ncreate (nid o) w else ncopy_raw (nid o) w
+                             else w
                  | None => w end
     | NSet k d =>
         match nents w !! k with
